@@ -1,5 +1,7 @@
 import PEval.Lemmas.APMono
 import PEval.Lemmas.APExt
+import PEval.Properties.KernelBetter
+import PEval.Properties.KernelStatus
 /-!
 # C08 — Loosening a matching threshold never loses a TP and never lowers AP
 
@@ -323,5 +325,43 @@ example : List.Forall₂ (looserE .centerDistance) [.fin 1] [.posInf]
     ∧ apOfE .ap .centerDistance [2] [.posInf] 1 [r0] = .ok { ap := some 1, tpList := [1], fpList := [0] }
     ∧ apOfE .ap .iou3d [2] [.posInf] 1 [r0] = .error "AssertionError" := by
   refine ⟨.cons (by simp [looserE, Mode.isDistance, EThr.le]) .nil, ?_, ?_, ?_⟩ <;> decide +kernel
+
+/-! ## the same for the CODE's decision tables (decision-table translator, `PEval.KernelBetter`, `PEval.KernelStatus`) -/
+
+theorem ofBool_ret {x : Except Err Bool} {b : Bool} (h : MatchKernels.ofBool x = .ret b) : x = .ok b := by
+  cases x with
+  | error e => simp [MatchKernels.ofBool] at h
+  | ok c => simp only [MatchKernels.ofBool, DT.Res.ret.injEq] at h; rw [h]
+
+/-- a TP stays a TP, read off the code's decision table of `is_result_correct`: if the table answers `True` at `t`
+(ordinary ground truth), it answers `True` at every looser valid `t'` -/
+theorem table_isResultCorrect_mono {tr : DT.DTree} (ht : Gen.K.resultCorrect.tree = some tr) (m : Mode) (r : Res)
+    (t t' : Rat) (hord : ∀ g, r.gt = some g → g.label ≠ fpLabel) (hl : looser m t t') (hv : thrValid m t' = true)
+    (h : DT.eval tr (MatchKernels.valAP m (some t) r) = .ret true) :
+    DT.eval tr (MatchKernels.valAP m (some t') r) = .ret true := by
+  rw [KernelStatus.resultCorrect_code_table_eq_isResultCorrect tr ht] at h ⊢
+  rw [isResultCorrect_mono m r t t' hord hl hv (ofBool_ret h)]
+  rfl
+
+/-- the status pair of the code's table of `get_status`: (TP, TP) at `t` stays (TP, TP) at every looser valid `t'` -/
+theorem table_status_tp_mono {tr : DT.DTree} (ht : Gen.K.status.tree = some tr) (m : Mode) (r : Res)
+    (t t' : Rat) (hord : ∀ g, r.gt = some g → g.label ≠ fpLabel) (hl : looser m t t') (hv : thrValid m t' = true)
+    (h : DT.eval tr (MatchKernels.valAP m (some t) r) = .other MatchKernels.sTpTp) :
+    DT.eval tr (MatchKernels.valAP m (some t') r) = .other MatchKernels.sTpTp := by
+  rw [KernelStatus.status_code_table_eq_getStatus tr ht] at h ⊢
+  unfold getStatus at h ⊢
+  cases hg : r.gt with
+  | none => simp [hg, MatchKernels.ofStatusAP, MatchKernels.statusCodeAP, MatchKernels.sFpNone, MatchKernels.sTpTp] at h
+  | some g =>
+    rw [hg] at h
+    simp only [] at h ⊢
+    have hne : (g.label == fpLabel) = false := by simpa using hord g hg
+    cases hc : isResultCorrect m (some t) r with
+    | error e => simp [hc, MatchKernels.ofStatusAP] at h
+    | ok b =>
+      cases b
+      · simp [hc, hne, MatchKernels.ofStatusAP, MatchKernels.statusCodeAP, MatchKernels.sFpFn, MatchKernels.sTpTp] at h
+      · rw [isResultCorrect_mono m r t t' hord hl hv hc]
+        simp [hne, MatchKernels.ofStatusAP, MatchKernels.statusCodeAP]
 
 end PEval.C08
